@@ -95,25 +95,37 @@ def oracle_nonblocking(ctx, sc, o, maxto=None):
 
 
 def real_case(ctx, sc, tag):
-    t0 = time.time()
-    o = realrun.run_real(sc, ctx.tmp, timeout=1)
+    # real processes and real timeouts: on a loaded machine a test that exits 0 may run into a 1 s timeout; a finding
+    # of the first attempt counts only when a second attempt with a generous timeout shows a finding too
+    o, viols = _real_case(ctx, sc, tag, 1)
+    if viols:
+        ctx.count('real-pool:repeated-with-long-timeout')
+        o, viols = _real_case(ctx, sc, tag, 8)
+    for v in viols:
+        ctx.violation(*v)
+    return o
+
+
+def _real_case(ctx, sc, tag, timeout):
+    viols = []
+    o = realrun.run_real(sc, ctx.tmp, timeout=timeout)
     ctx.evaluations += 1
     ctx.count('real-pool:' + tag)
     ok0 = {tuple(r['contents']) for r in o.log if r['verdict'] == 0}
     for d in o.accepted:
         t = tuple(c.decode('latin-1') for c in d)
         if t not in ok0:
-            ctx.violation('commit-without-exit0', f'real pool: committed {t} although no test run on it exited 0', {'scenario': sc, 'kind': 'real'})
+            viols.append(('commit-without-exit0', f'real pool: committed {t} although no test run on it exited 0', {'scenario': sc, 'kind': 'real', 'tag': tag}))
     for p in o.passes:
         if p['code'] in (2, 50):
-            ctx.violation('crash:' + type(p['exc']).__name__, f'real pool ({tag}): {p["pass_"]} ended the reduction with {type(p["exc"]).__name__}: {str(p["exc"])[:200]}', {'scenario': sc, 'kind': 'real'})
+            viols.append(('crash:' + type(p['exc']).__name__, f'real pool ({tag}): {p["pass_"]} ended the reduction with {type(p["exc"]).__name__}: {str(p["exc"])[:200]}', {'scenario': sc, 'kind': 'real', 'tag': tag}))
     if tag == 'noisy' and [c.decode('latin-1') for c in o.passes[-1]['disk']] != ['a'] and not any(p['code'] for p in o.passes):
-        ctx.violation('noisy-test-blocks', f'real pool: noisy but correct test, final {o.passes[-1]["disk"]} instead of [a]', {'scenario': sc, 'kind': 'real'})
-    if o.wall > 60:
-        ctx.violation('wedged', f'real-pool run took {o.wall:.0f}s', {'scenario': sc, 'kind': 'real'})
+        viols.append(('noisy-test-blocks', f'real pool: noisy but correct test, final {o.passes[-1]["disk"]} instead of [a]', {'scenario': sc, 'kind': 'real', 'tag': tag}))
+    if o.wall > 60 * timeout:
+        viols.append(('wedged', f'real-pool run took {o.wall:.0f}s', {'scenario': sc, 'kind': 'real', 'tag': tag}))
     if any(r['verdict'] != 0 for r in o.log) and o.accepted:
         ctx.nontriv('real:' + repr(sc['files']) + repr(sc['passes']))
-    return o
+    return o, viols
 
 
 REAL_SCENARIOS = [
@@ -189,7 +201,7 @@ def replay(ctx, payload):
     r = payload['replay']
     sc = r['scenario']
     if r.get('kind') == 'real':
-        real_case(ctx, sc, 'replay')
+        real_case(ctx, sc, r.get('tag', 'replay'))
         return
     o = driver.run_scenario(sc, ctx.tmp)
     print('replay output', o.out)
